@@ -26,158 +26,19 @@ pub proof fn lemma_tv_act_len(ng: &NoGood, tv: Seq<Term>)
     lemma_len_subset(ng.act(), below_u32(tv.len()));
 }
 pub open spec fn stack_ok(s: Seq<(bool, NoGood)>, n: int) -> bool { forall|j: int| 0 <= j < s.len() ==> wf_ng(&(#[trigger] s[j]).1) && s[j].1.act().len() <= n }
-// what may be sent: a two-valued interpretation of the right length that is a stable model
-pub open spec fn good_result(fs: Seq<BF>, v: Seq<Term>) -> bool {
-    v.len() == fs.len() && (forall|j: int| 0 <= j < v.len() ==> decided(#[trigger] v[j])) && is_stable(fs, v)
-}
-// the goal of the search: stable models (md == false) or two-valued models (md == true, the stability test is `true`)
-pub open spec fn goal(fs: Seq<BF>, md: bool, v: Seq<Term>) -> bool {
-    v.len() == fs.len() && (forall|j: int| 0 <= j < v.len() ==> decided(#[trigger] v[j])) && (if md { is_fix(fs, tvs(v)) } else { is_stable(fs, v) })
-}
 pub open spec fn log_ok(l0: Seq<Seq<Term>>, l: Seq<Seq<Term>>, fs: Seq<BF>, md: bool) -> bool {
     &&& l0.len() <= l.len()
     &&& forall|k: int| 0 <= k < l0.len() ==> l[k] == l0[k]
     &&& forall|k: int| l0.len() <= k < l.len() ==> goal(fs, md, #[trigger] l[k])
 }
-// the functions denoted by a vector of handles do not change when the node table grows
-pub proof fn lemma_ext_dens(o: Seq<BddNode>, n: Seq<BddNode>, r: Seq<Term>)
-    requires ext(o, n), forall|j: int| 0 <= j < r.len() ==> (#[trigger] r[j]).0 < o.len(),
-    ensures dens(n, r) == dens(o, r)
-{
-    assert forall|i: int| 0 <= i < r.len() implies den(n, r[i].0 as int) == den(o, r[i].0 as int) by { lemma_ext_den(o, n, r[i].0 as int); }
-    assert(dens(n, r) =~= dens(o, r));
-}
-// ================= completeness of the search (C05: "no model is lost") =================
-pub open spec fn two_valued(m: Seq<Term>) -> bool { forall|j: int| 0 <= j < m.len() ==> decided(#[trigger] m[j]) }
-// m keeps every decided entry of c (m refines c)
-pub open spec fn le_tv(c: Seq<Term>, m: Seq<Term>) -> bool { m.len() == c.len() && forall|p: int| 0 <= p < c.len() && decided(#[trigger] c[p]) ==> m[p] == c[p] }
 // a two-valued interpretation as a total assignment over u32 positions (nogood side) / over usize variables (diagram side)
 pub open spec fn ta(m: Seq<Term>) -> TA { |x: u32| (x as int) < m.len() && m[x as int].0 == 1 }
-pub open spec fn masg(m: Seq<Term>) -> Asg { asg_of(tvs(m)) }
 pub proof fn lemma_le_ext_tv(c: Seq<Term>, m: Seq<Term>)
     requires two_valued(m), m.len() == c.len(), c.len() <= u32::MAX,
     ensures le_tv(c, m) == ext_tv(ta(m), c)
 {
     if le_tv(c, m) { assert forall|p: int| 0 <= p < c.len() && !und(#[trigger] c[p]) implies ta(m)(p as u32) == (c[p].0 == 1) by { assert(decided(c[p])); } }
     if ext_tv(ta(m), c) { assert forall|p: int| 0 <= p < c.len() && decided(#[trigger] c[p]) implies m[p] == c[p] by { assert(!und(c[p])); assert(ta(m)(p as u32) == (c[p].0 == 1)); assert(decided(m[p])); } }
-}
-pub proof fn lemma_le_trans(a: Seq<Term>, b: Seq<Term>, c: Seq<Term>)
-    requires le_tv(a, b), le_tv(b, c),
-    ensures le_tv(a, c)
-{
-    assert forall|p: int| 0 <= p < a.len() && decided(#[trigger] a[p]) implies c[p] == a[p] by { assert(b[p] == a[p]); assert(decided(b[p])); }
-}
-// restricting by the decided entries of c does not change the value at an assignment that refines c
-pub proof fn lemma_cof_refines(f: BF, c: Seq<Term>, m: Seq<Term>)
-    requires le_tv(c, m), two_valued(m), c.len() < usize::MAX,
-    ensures cof(f, c, c.len() as int)(masg(m)) == f(masg(m))
-{
-    lemma_cof_eval(f, c, c.len() as int, masg(m));
-    assert forall|x: usize| #[trigger] ovr(masg(m), c, c.len() as int)(x) == masg(m)(x) by {
-        if (x as int) < c.len() && decided(c[x as int]) { assert(m[x as int] == c[x as int]); }
-    }
-    assert(ovr(masg(m), c, c.len() as int) =~= masg(m));
-}
-// a stable model is a two-valued model: every condition evaluates to the statement's own value
-pub proof fn lemma_stable_model(fs: Seq<BF>, md: bool, m: Seq<Term>, p: int)
-    requires goal(fs, md, m), m.len() < usize::MAX, 0 <= p < m.len(),
-    ensures fs[p](masg(m)) == (m[p].0 == 1)
-{
-    if !md { lemma_stable_is_fix(fs, m); }
-    assert(total(tvs(m))) by { assert forall|i: int| 0 <= i < tvs(m).len() implies (#[trigger] tvs(m)[i]).is_some() by { assert(decided(m[i])); } }
-    lemma_total_fix_is_model(fs, tvs(m), p);
-    assert(decided(m[p]));
-}
-// the undecided entries of c are diagrams that agree with the original conditions on every assignment refining c
-pub open spec fn tracks_m(nodes: Seq<BddNode>, fs: Seq<BF>, c: Seq<Term>, m: Seq<Term>) -> bool {
-    forall|p: int| 0 <= p < c.len() && und(#[trigger] c[p]) ==> den(nodes, c[p].0 as int)(masg(m)) == fs[p](masg(m))
-}
-pub open spec fn tracks(nodes: Seq<BddNode>, fs: Seq<BF>, c: Seq<Term>) -> bool {
-    forall|m: Seq<Term>| two_valued(m) && #[trigger] le_tv(c, m) ==> tracks_m(nodes, fs, c, m)
-}
-pub open spec fn handles_in(nodes: Seq<BddNode>, c: Seq<Term>) -> bool { forall|j: int| 0 <= j < c.len() ==> (#[trigger] c[j]).0 < nodes.len() }
-pub proof fn lemma_tracks_ext(o: Seq<BddNode>, n: Seq<BddNode>, fs: Seq<BF>, c: Seq<Term>)
-    requires tracks(o, fs, c), ext(o, n), handles_in(o, c),
-    ensures tracks(n, fs, c)
-{
-    assert forall|m: Seq<Term>| two_valued(m) && #[trigger] le_tv(c, m) implies tracks_m(n, fs, c, m) by {
-        assert(tracks_m(o, fs, c, m));
-        assert forall|p: int| 0 <= p < c.len() && und(#[trigger] c[p]) implies den(n, c[p].0 as int)(masg(m)) == fs[p](masg(m)) by { lemma_ext_den(o, n, c[p].0 as int); }
-    }
-}
-// an entry set to a truth value, the others kept: still tracking
-pub proof fn lemma_tracks_more_decided(nodes: Seq<BddNode>, fs: Seq<BF>, c: Seq<Term>, c2: Seq<Term>)
-    requires tracks(nodes, fs, c), c2.len() == c.len(), le_tv(c, c2), forall|p: int| 0 <= p < c.len() && und(#[trigger] c2[p]) ==> c2[p] == c[p],
-    ensures tracks(nodes, fs, c2)
-{
-    assert forall|m: Seq<Term>| two_valued(m) && #[trigger] le_tv(c2, m) implies tracks_m(nodes, fs, c2, m) by {
-        lemma_le_trans(c, c2, m);
-        assert(tracks_m(nodes, fs, c, m));
-        assert forall|p: int| 0 <= p < c2.len() && und(#[trigger] c2[p]) implies den(nodes, c2[p].0 as int)(masg(m)) == fs[p](masg(m)) by { assert(c2[p] == c[p]); assert(und(c[p])); }
-    }
-}
-// one update step (every entry restricted by the decided entries): decided entries stay (canonicity), tracking is kept,
-// and every stable model that refined the old vector refines the new one
-pub proof fn lemma_update_step(o: Seq<BddNode>, n: Seq<BddNode>, fs: Seq<BF>, md: bool, c: Seq<Term>, c2: Seq<Term>)
-    requires
-        nodes_wf(n), nodup(n), ext(o, n), handles_in(o, c), handles_in(n, c2), c2.len() == c.len(), c.len() == fs.len(), c.len() < usize::MAX, o.len() >= 2,
-        forall|i: int| 0 <= i < c.len() ==> den(n, (#[trigger] c2[i]).0 as int) == cof(den(o, c[i].0 as int), c, c.len() as int),
-        tracks(o, fs, c),
-    ensures
-        le_tv(c, c2), tracks(n, fs, c2),
-        forall|m: Seq<Term>| #[trigger] goal(fs, md, m) && le_tv(c, m) ==> le_tv(c2, m),
-{
-    let k = c.len() as int;
-    assert forall|p: int| 0 <= p < k && decided(#[trigger] c[p]) implies c2[p] == c[p] by {
-        lemma_cof_const(c[p].0 == 1, c, k);
-        lemma_ext_den(o, n, c[p].0 as int);
-        lemma_canon(n, c2[p].0 as int, c[p].0 as int);
-    }
-    assert forall|m: Seq<Term>| two_valued(m) && #[trigger] le_tv(c2, m) implies tracks_m(n, fs, c2, m) by {
-        assert forall|p: int| 0 <= p < k && und(#[trigger] c2[p]) implies den(n, c2[p].0 as int)(masg(m)) == fs[p](masg(m)) by {
-            // m refines c as well: a decided entry of c is unchanged in c2
-            assert(le_tv(c, m)) by { assert forall|q: int| 0 <= q < k && decided(#[trigger] c[q]) implies m[q] == c[q] by { assert(c2[q] == c[q]); } }
-            assert(und(c[p])) by { if decided(c[p]) { assert(c2[p] == c[p]); } }
-            assert(tracks_m(o, fs, c, m));
-            lemma_cof_refines(den(o, c[p].0 as int), c, m);
-        }
-    }
-    assert forall|m: Seq<Term>| #[trigger] goal(fs, md, m) && le_tv(c, m) implies le_tv(c2, m) by {
-        assert forall|p: int| 0 <= p < k && decided(#[trigger] c2[p]) implies m[p] == c2[p] by {
-            if decided(c[p]) { assert(c2[p] == c[p]); } else {
-                assert(two_valued(m));
-                assert(tracks_m(o, fs, c, m));
-                assert(und(c[p]));
-                lemma_cof_refines(den(o, c[p].0 as int), c, m);
-                lemma_stable_model(fs, md, m, p);
-                // den(n, c2[p]) is the constant c2[p], and it equals fs[p] at m
-                assert(den(n, c2[p].0 as int)(masg(m)) == fs[p](masg(m)));
-                lemma_den_const(n, c2[p]);
-                assert(decided(m[p]));
-            }
-        }
-    }
-}
-pub proof fn lemma_den_const(nodes: Seq<BddNode>, t: Term)
-    requires decided(t),
-    ensures forall|a: Asg| #[trigger] den(nodes, t.0 as int)(a) == (t.0 == 1)
-{ lemma_const_eval(); }
-// a statement whose condition, restricted by c, is the constant opposite to the statement's own decided value: no stable model refines c
-pub proof fn lemma_ac_inconsistent(n: Seq<BddNode>, fs: Seq<BF>, md: bool, c: Seq<Term>, acc: Seq<Term>, p: int)
-    requires c.len() == fs.len(), c.len() < usize::MAX, acc.len() == c.len(), 0 <= p < c.len(),
-        den(n, acc[p].0 as int) == cof(fs[p], c, c.len() as int),
-        decided(c[p]), decided(acc[p]), (c[p].0 == 1) != (acc[p].0 == 1),
-    ensures forall|m: Seq<Term>| #[trigger] goal(fs, md, m) ==> !le_tv(c, m)
-{
-    assert forall|m: Seq<Term>| #[trigger] goal(fs, md, m) implies !le_tv(c, m) by {
-        if le_tv(c, m) {
-            assert(two_valued(m));
-            lemma_cof_refines(fs[p], c, m);
-            lemma_stable_model(fs, md, m, p);
-            lemma_den_const(n, acc[p]);
-            assert(m[p] == c[p]);
-        }
-    }
 }
 // ---- the combinatorial state of the search
 pub ghost struct SS {
@@ -587,9 +448,6 @@ pub proof fn lemma_incons(s: SS)
         if le_tv(s.cur, m) { assert(two_valued(m)); lemma_le_ext_tv(s.cur, m); assert(avoids_all(ta(m), s.store)); }
     }
 }
-pub open spec fn ac_bad(c: Seq<Term>, acc: Seq<Term>, p: int) -> bool {
-    0 <= p < c.len() && p < acc.len() && decided(c[p]) && decided(acc[p]) && (c[p].0 == 1) != (acc[p].0 == 1)
-}
 pub open spec fn all_track(nodes: Seq<BddNode>, fs: Seq<BF>, c: Seq<Term>, h: Seq<Vec<Term>>) -> bool {
     &&& tracks(nodes, fs, c) && handles_in(nodes, c)
     &&& forall|l: int| 0 <= l < h.len() ==> tracks(nodes, fs, (#[trigger] h[l])@) && handles_in(nodes, h[l]@)
@@ -600,26 +458,6 @@ pub proof fn lemma_all_track_ext(o: Seq<BddNode>, n: Seq<BddNode>, fs: Seq<BF>, 
 {
     lemma_tracks_ext(o, n, fs, c);
     assert forall|l: int| 0 <= l < h.len() implies tracks(n, fs, (#[trigger] h[l])@) && handles_in(n, h[l]@) by { lemma_tracks_ext(o, n, fs, h[l]@); }
-}
-// what the callers establish with the grounded interpretation: every entry is its condition restricted by the decided entries
-pub proof fn lemma_tracks_init(nodes: Seq<BddNode>, fs: Seq<BF>, c: Seq<Term>)
-    requires c.len() == fs.len(), c.len() < usize::MAX, forall|i: int| 0 <= i < c.len() ==> den(nodes, (#[trigger] c[i]).0 as int) == cof(fs[i], c, c.len() as int),
-    ensures tracks(nodes, fs, c)
-{
-    assert forall|m: Seq<Term>| two_valued(m) && #[trigger] le_tv(c, m) implies tracks_m(nodes, fs, c, m) by {
-        assert forall|p: int| 0 <= p < c.len() && und(#[trigger] c[p]) implies den(nodes, c[p].0 as int)(masg(m)) == fs[p](masg(m)) by { lemma_cof_refines(fs[p], c, m); }
-    }
-}
-// every stable model refines the grounded interpretation (the least fixpoint)
-pub proof fn lemma_stable_refines_lfp(fs: Seq<BF>, md: bool, c: Seq<Term>)
-    requires is_lfp(fs, tvs(c)), c.len() == fs.len(), c.len() < usize::MAX,
-    ensures forall|m: Seq<Term>| #[trigger] goal(fs, md, m) ==> le_tv(c, m)
-{
-    assert forall|m: Seq<Term>| #[trigger] goal(fs, md, m) implies le_tv(c, m) by {
-        if !md { lemma_stable_is_fix(fs, m); }
-        lemma_fix_refines_lfp(fs, tvs(c), tvs(m));
-        assert forall|p: int| 0 <= p < c.len() && decided(#[trigger] c[p]) implies m[p] == c[p] by { assert(tvs(c)[p].is_some()); assert(tvs(m)[p] == tvs(c)[p]); assert(decided(m[p])); }
-    }
 }
 // what the program needs from the invariant when it pops the top entry
 pub proof fn lemma_inv_top(s: SS)
@@ -765,37 +603,3 @@ pub proof fn lemma2_shape(s: SS)
     requires inv2(s),
     ensures store_in(s.store, s.fs.len()), s.stack.len() > 0 ==> ng_in(&s.stack.last().1, s.fs.len())
 { reveal(inv2); if s.stack.len() > 0 { assert(ng_in(&s.stack[s.stack.len() - 1].1, s.fs.len())); } }
-// ================= two-valued mode: the leaf is a two-valued model =================
-// f looks only at the variables below n
-// a two-valued interpretation that passed the acceptance-condition consistency test is a two-valued model
-pub proof fn lemma_leaf_fix(nodes: Seq<BddNode>, fs: Seq<BF>, cur: Seq<Term>, acc: Seq<Term>)
-    requires nodes_wf(nodes), nodup(nodes), nodes.len() >= 2, two_valued(cur), cur.len() == fs.len(), acc.len() == fs.len(), cur.len() < usize::MAX,
-        handles_in(nodes, acc), all_dep_below(fs),
-        forall|p: int| 0 <= p < fs.len() ==> den(nodes, (#[trigger] acc[p]).0 as int) == cof(fs[p], cur, cur.len() as int),
-        forall|p: int| 0 <= p < fs.len() ==> !ac_bad(cur, acc, p),
-    ensures is_fix(fs, tvs(cur))
-{
-    let n = cur.len() as int;
-    let tv = tvs(cur);
-    lemma_const_eval();
-    assert forall|p: int| 0 <= p < fs.len() implies #[trigger] tv[p] == gamma_at(fs, tv, p) by {
-        let c = fs[p](masg(cur));
-        let f = cof(fs[p], cur, n);
-        assert forall|a: Asg| #[trigger] f(a) == bf_const(c)(a) by {
-            lemma_cof_eval(fs[p], cur, n, a);
-            assert(dep_below(fs[p], n));
-            assert forall|x: usize| (x as int) < n implies #[trigger] ovr(a, cur, n)(x) == masg(cur)(x) by { assert(decided(cur[x as int])); }
-            assert(agree_below(ovr(a, cur, n), masg(cur), n));
-            assert(fs[p](ovr(a, cur, n)) == fs[p](masg(cur)));
-        }
-        assert(f =~= bf_const(c));
-        // canonicity: the handle of a constant function is the terminal
-        let t = if c { 1int } else { 0int };
-        lemma_canon(nodes, acc[p].0 as int, t);
-        assert(decided(acc[p]));
-        assert(!ac_bad(cur, acc, p));
-        assert(decided(cur[p]));
-        lemma_cof_cofv(fs[p], cur);
-        lemma_const_ne();
-    }
-}
